@@ -43,13 +43,17 @@ def worker(args):
     ml = dis.maxlen
     res = {"name": name, "mode": k, "n": 0, "decoded": 0, "checks": 0, "viol": {}, "model": [], "samples": []}
 
+    last_h = [None]
+
     def d(b):
-        isa.reset_pending(dis)
-        o = c04.outcome(lambda: dis(b))
-        isa.reset_pending(dis)
-        return o
+        # no reset of the decoder's private state: whatever earlier calls (including junk that is not an instruction)
+        # left behind is part of what the next call sees
+        last_h[0] = isa.junk_history(dis, (name, k))
+        return c04.outcome(lambda: dis(b))
 
     def report(kind, o, b, extra):
+        if last_h[0]:
+            extra = dict(extra, history=[last_h[0]])
         s = byfmt.get(o.get("spec")) if isinstance(o, dict) else None
         hk = s.hook.__name__ if s is not None else "?"
         key = "%s|%s|%s" % (name, hk, kind)
@@ -106,6 +110,12 @@ def worker(args):
                 elif c < 0.5 and name == "x64_x64":
                     pre = bytes([0x40 + rng.randrange(16)])
                 out.append(("modrm", pre + body))
+        # operand-size / address-size / repeat prefixes (and REX) change operand and immediate widths: every specification is
+        # reached behind each, followed by distinct filler bytes
+        for s in specs:
+            head = c04.spec_bytes(rng, s, e, ml)
+            for pf in ([b"\x66", b"\x67", b"\x66\x67", b"\xf3"] + ([b"\x48", b"\x41", b"\x66\x4c"] if name == "x64_x64" else [])):
+                out.append(("prefix-sweep", pf + head + filler))
         return out
 
     with isa.ModeCtx(dis, k):
@@ -241,10 +251,12 @@ def replay(path):
     b = bytes.fromhex(obj["bytes"])
     with isa.ModeCtx(dis, obj["mode"]):
         def d(x):
-            isa.reset_pending(dis)
-            o = c04.outcome(lambda: dis(x))
-            isa.reset_pending(dis)
-            return o
+            for h in obj.get("history", []):
+                try:
+                    dis(bytes.fromhex(h))
+                except Exception:
+                    pass
+            return c04.outcome(lambda: dis(x))
         o = d(b)
         n = obj.get("consumed", 0)
         outs = {"d(b)": o, "d(b[:n])": d(b[:n]), "d(b[:maxlen])": d(b[:dis.maxlen])}
